@@ -272,6 +272,12 @@ def default_threshold_part(ctx, count):
 
 
 def run(ctx: C.Ctx):
+    from .. import shapes_static, translate_selection
+    shapes_static.run_with_translation(ctx, translate_selection, "Selection", "sensor-selection", lambda: _run(ctx),
+                                       "regenerated from SSPOC.update_sensors / SSPOC.fit: selections = topN / threshSel, stored count, default threshold")
+
+
+def _run(ctx: C.Ctx):
     rng = ctx.rng
     default_threshold_part(ctx, ctx.scale(40, 500))
     todo = []
